@@ -182,8 +182,8 @@ class CallMixin(ExprMixin):
         if not self.spec:
             hooks_a = [h for h in self.c.hooks if h[0] == "after" and _match(h[1], ftext)]
             for h in hooks_a:
-                for s, _ in res:
-                    self.run_hook(s, h, e)
+                for s, r in res:
+                    self.run_hook(s, h, e, {"result": r} if isinstance(r, V) else None)
         return res
 
     def is_coroutine_creation(self, con, node):
@@ -217,7 +217,16 @@ class CallMixin(ExprMixin):
                 # reachability of the hook (vacuity guard): some path must arrive here
                 reach = self.__dict__.setdefault("hook_reach", {})
                 reach.setdefault((act[1], node.lineno), []).append(z3.And(st.pc) if st.pc else z3.BoolVal(True))
-                self.oblige(st, "trace", act[1], self.spec_bool(act[2], st, extra=extra, old=self.entry), node.lineno, assume=True)
+                try:
+                    cond = self.spec_bool(act[2], st, extra=extra, old=self.entry)
+                except Unsupported as ex:
+                    if "unbound name" not in str(ex):
+                        raise
+                    # the clause speaks of a local the code has not (definitely) bound at this call: it cannot be
+                    # established there; left undischarged, the witness search decides on the real code
+                    self.note("clause %s at line %s of %s: %s - not established" % (act[1], node.lineno, self.c.qual, ex))
+                    cond = z3.BoolVal(False)
+                self.oblige(st, "trace", act[1], cond, node.lineno, assume=True)
             elif act[0] == "set":
                 st.ghost[act[1]] = self.spec_eval(act[2], st, extra=extra, old=self.entry)
             elif act[0] == "assume":
@@ -1119,7 +1128,18 @@ class CallMixin(ExprMixin):
         for label, expr in cm.pre:
             self.oblige(st, "pre", "%s:%s" % (cm.pattern, label), self.spec_bool(expr, call_st, old=call_st), node.lineno)
         for exc in cm.raises:
+            when = None
+            if isinstance(exc, tuple):
+                # (name, when, exact): raised only in states satisfying `when`; exact: and always in those
+                exc, wexpr, exact = exc
+                when = self.spec_bool(wexpr, call_st, old=call_st)
             s2 = st.copy()
+            if when is not None:
+                s2.assume(when)
+                if exact:
+                    st.assume(z3.Not(when))
+                if not self.feasible(s2):
+                    continue
             ev = self.fresh(EXC, "exc")
             s2.assume(z3.Or([ev.t == i for i in self.exc_subclass_ids(exc)]))
             if cm.havoc_all:
